@@ -130,7 +130,7 @@ func runC06(cx *CheckCtx) {
 			cx.decide(isCall(bPut.Args[2], "native/ledger.CurrentIndex"), "publication", "netmap.NewEpoch/block", "stores the current height", "the stored tick height is "+bPut.Args[2].pretty(), bPut.Where(w))
 			// p ‖ BE4(epoch) ‖ k → v over scan of "2"
 			ps := keyParts(pPut.Args[1])
-			okP := len(ps) == 3 && ps[1] == tb.mk("call", nmPkg+".fourBytesBE", 0, epoch) && ps[2].Op == "field" && ps[2].Name == "k" &&
+			okP := len(ps) == 3 && fixedEnc(ps[1], epoch) && ps[2].Op == "field" && ps[2].Name == "k" &&
 				pPut.Args[2].Op == "field" && pPut.Args[2].Name == "v" && ps[2].Args[0] == pPut.Args[2].Args[0]
 			if okP {
 				it := ps[2].Args[0]
@@ -150,12 +150,7 @@ func runC06(cx *CheckCtx) {
 				}
 			}
 			cx.decide(okL, "publication", "netmap.NewEpoch/structured/all", "every scanned candidate is copied (the loop ends only on exhaustion)", "the copy loop of structured candidates can stop early or skip items", pPut.Where(w))
-			// legacy snapshot: filter shape
-			if ff := cx.pkgFunc(nmPkg, "filterNetmap"); ff != nil {
-				offline := nodeStateConsts(cx)["Offline"]
-				ok, why := filterShape(newTermBuilder(w, ff), ff, offline)
-				cx.decide(ok, "publication", "netmap.filterNetmap", "keeps exactly the candidates with State != Offline", why, w.pos(ff.Pos()))
-			}
+			// legacy snapshot: the stored value is the result of one helper call, and that helper is a filter
 			sv := unserialize(snapPut.Args[2])
 			okS := false
 			for _, alt := range tb.Alts(sv) {
@@ -164,8 +159,15 @@ func runC06(cx *CheckCtx) {
 				}
 			}
 			var fcall *Site
-			for _, s := range a.Sites(func(s *Site) bool { return s.Inlined && s.Callee == nmPkg+".filterNetmap" }) {
+			for _, s := range a.Sites(func(s *Site) bool { return s.Inlined && s.Val == sv }) {
 				fcall = s
+			}
+			if fcall != nil {
+				if ff := fcall.Instr.(ssa.CallInstruction).Common().StaticCallee(); ff != nil {
+					offline := nodeStateConsts(cx)["Offline"]
+					ok, why := filterShape(newTermBuilder(w, ff), ff, offline)
+					cx.decide(ok, "publication", "netmap.filterNetmap", "keeps exactly the candidates with State != Offline", why, w.pos(ff.Pos()))
+				}
 			}
 			cx.decide(okS && fcall != nil && sv == fcall.Val, "publication", "netmap.NewEpoch/legacy", "the legacy snapshot is the filtered candidate list", "the legacy snapshot stores "+sv.pretty()+", not the result of filtering the candidates", snapPut.Where(w))
 			// candidate scan
@@ -606,6 +608,8 @@ func runC07(cx *CheckCtx) {
 	}
 	cx.floor("update_methods", 3)
 	// single emitters / writers over all methods
+	updFn := cx.locate(nmPkg, "updateCandidateState", "emits UpdateStateSuccess", func(f *ssa.Function) bool { return notifiesDirect(f, "UpdateStateSuccess") })
+	addFn := cx.locate(nmPkg, "addToNetmap", "emits AddPeerSuccess", func(f *ssa.Function) bool { return notifiesDirect(f, "AddPeerSuccess") })
 	if c := cx.contract("netmap"); c != nil {
 		for _, m := range c.Methods {
 			a := cx.run(m)
@@ -613,22 +617,31 @@ func runC07(cx *CheckCtx) {
 				skey := "netmap." + m.GoName + "/" + siteConstruct(a, s)
 				switch notifyName(s) {
 				case "UpdateStateSuccess":
-					cx.decide(s.Ctx.inFunc(nmPkg+".updateCandidateState"), "single-emitter", skey, "emitted by updateCandidateState", "UpdateStateSuccess emitted elsewhere", s.Where(w))
+					cx.decide(updFn != nil && s.Ctx.fn == updFn, "single-emitter", skey, "emitted by the one state-update helper", "UpdateStateSuccess is emitted by a second function: a state change path exists that bypasses the update protocol", s.Where(w))
 				case "AddPeerSuccess":
-					cx.decide(s.Ctx.inFunc(nmPkg+".addToNetmap"), "single-emitter", skey, "emitted by addToNetmap", "AddPeerSuccess emitted elsewhere", s.Where(w))
+					cx.decide(addFn != nil && s.Ctx.fn == addFn, "single-emitter", skey, "emitted by the one add helper", "AddPeerSuccess is emitted by a second function: an admission path exists that bypasses the add protocol", s.Where(w))
 				case "AddNode":
 					cx.decide(m.GoName == "AddNode", "single-emitter", skey, "emitted by AddNode", "AddNode emitted elsewhere", s.Where(w))
 				}
 				if isStore(s) {
 					fam := keyFamily(s.Args[1])
 					if fam == "candidate" || fam == "2" {
-						okW := s.Ctx.inFunc(nmPkg+".addToNetmap") || s.Ctx.inFunc(nmPkg+".removeFromNetmap") || s.Ctx.inFunc(nmPkg+".updateNetmapState") || m.GoName == "AddNode"
-						cx.decide(okW, "who-may-write", skey, "candidate families written by the add/update/remove helpers", "a candidate record is written outside the add/update/remove protocol", s.Where(w))
+						cx.decide(candidateWriters[m.GoName], "who-may-write", skey, "candidate families are written only by the add/update/remove/tick entry points", "method "+m.GoName+" writes a candidate record although it is not one of the add/update/remove entry points", s.Where(w))
 					}
 				}
 			}
 		}
 	}
+}
+
+// candidateWriters: the ABI methods that may reach a write of the candidate
+// families (v1 "candidate"‖key, v2 '2'‖key). Confirmed by reading: add
+// (AddPeer*, AddNode), update (UpdateState*), remove (DeleteNode, the
+// UpdateState→Offline path), the epoch tick (expiry of v2 nodes) and the
+// deploy-time migration.
+var candidateWriters = map[string]bool{
+	"AddPeer": true, "AddPeerIR": true, "AddNode": true, "UpdateState": true, "UpdateStateIR": true,
+	"DeleteNode": true, "NewEpoch": true, "_deploy": true,
 }
 
 // ---------- C08 ----------
@@ -697,7 +710,8 @@ func runC08(cx *CheckCtx) {
 		tb := a.tb
 		epoch := paramTerm(tb, m, "epochNum")
 		var drop *Site
-		for _, s := range a.Sites(func(s *Site) bool { return s.Inlined && s.Callee == nmPkg+".dropNetmap" }) {
+		dropName := fq(netmapDropFn(cx))
+		for _, s := range a.Sites(func(s *Site) bool { return s.Inlined && s.Callee == dropName }) {
 			drop = s
 		}
 		if drop == nil {
@@ -734,7 +748,8 @@ func runC08(cx *CheckCtx) {
 		tb := a.tb
 		count := paramTerm(tb, m, "count")
 		var drop *Site
-		for _, s := range a.Sites(func(s *Site) bool { return s.Inlined && s.Callee == nmPkg+".dropNetmap" }) {
+		dropName := fq(netmapDropFn(cx))
+		for _, s := range a.Sites(func(s *Site) bool { return s.Inlined && s.Callee == dropName }) {
 			drop = s
 		}
 		if drop == nil {
@@ -859,23 +874,46 @@ func runC08(cx *CheckCtx) {
 			_ = ex
 		}
 	}
+	// the per-epoch list: writer, reader and dropper use one fixed-width epoch encoder
+	writeEnc := ""
+	var dropFn *ssa.Function
+	if m := cx.method("netmap", "NewEpoch"); m != nil {
+		a := cx.run(m)
+		epoch := paramTerm(a.tb, m, "epochNum")
+		for _, s := range a.RealEffects() {
+			if s.Effect == "put" && keyFamily(s.Args[1]) == "p" {
+				if ps := keyParts(s.Args[1]); len(ps) == 3 && fixedEnc(ps[1], epoch) {
+					writeEnc = ps[1].Name
+				}
+			}
+		}
+		dropFn = netmapDropFn(cx)
+	}
 	if m := cx.method("netmap", "ListNodesEpoch"); m != nil {
 		a := cx.run(m)
 		tb := a.tb
 		ok := false
 		for _, ex := range a.Exits() {
 			for _, r := range ex.Results {
-				if r.Op == "find" && r.Args[0] == tb.cat(tb.constBytes("p"), tb.mk("call", nmPkg+".fourBytesBE", 0, paramTerm(tb, m, "epoch"))) {
+				if r.Op != "find" {
+					continue
+				}
+				if ps := keyParts(r.Args[0]); len(ps) == 2 && ps[0] == tb.constBytes("p") && fixedEnc(ps[1], paramTerm(tb, m, "epoch")) && ps[1].Name == writeEnc {
 					ok = true
 				}
 			}
 		}
 		cx.decide(ok, "epoch-list-key", "netmap.ListNodesEpoch", "scans 'p'‖BE4(epoch), the fixed-width prefix NewEpoch writes under", "listNodes(e) does not scan the prefix NewEpoch writes the list of epoch e under (or uses a variable-width encoding: epoch 1 would also list epoch 257)", w.pos(m.Fn.Pos()))
 	}
-	if ff := cx.pkgFunc(nmPkg, "dropNetmap"); ff != nil {
+	if ff := dropFn; ff != nil {
 		a := cx.analyze(&Query{Name: "std", Root: ff})
 		tb := a.tb
-		f := findSite(a, tb.cat(tb.constBytes("p"), tb.mk("call", nmPkg+".fourBytesBE", 0, tb.mk("param", "1:epoch", 0))))
+		var f *Site
+		for _, s := range a.Sites(func(s *Site) bool { return s.Callee == "storage.Find" }) {
+			if ps := keyParts(s.Args[1]); len(ps) == 2 && ps[0] == tb.constBytes("p") && len(ff.Params) == 2 && fixedEnc(ps[1], fnParam(tb, ff, 1)) && ps[1].Name == writeEnc {
+				f = s
+			}
+		}
 		okD := f != nil
 		if okD {
 			okD = false
@@ -885,8 +923,27 @@ func runC08(cx *CheckCtx) {
 				}
 			}
 		}
-		cx.decide(okD, "epoch-list-key", "netmap.dropNetmap", "deletes every key of the scan of 'p'‖BE4(epoch)", "dropNetmap does not delete exactly the keys stored for the epoch", w.pos(ff.Pos()))
+		cx.decide(okD, "epoch-list-key", "netmap.dropNetmap", "deletes every key of the scan of 'p'‖BE4(epoch)", "the drop helper does not delete exactly the keys stored for the epoch", w.pos(ff.Pos()))
+	} else {
+		cx.violated("epoch-list-key", "netmap.dropNetmap", "NewEpoch no longer deletes the keys of an old per-epoch list", "")
 	}
+}
+
+// netmapDropFn: the helper that deletes a per-epoch list, found from NewEpoch:
+// the function containing the delete of the keys of a scan of family 'p'.
+func netmapDropFn(cx *CheckCtx) *ssa.Function {
+	m := cx.method("netmap", "NewEpoch")
+	if m == nil {
+		return nil
+	}
+	a := cx.run(m)
+	return siteFunc(a, func(s *Site) bool {
+		if s.Effect != "delete" || s.Args[1].Op != "iterval" {
+			return false
+		}
+		f := s.Args[1].Args[0]
+		return f.Op == "find" && keyFamily(f.Args[0]) == "p"
+	})
 }
 
 // hasLt: x < y is a unit fact at st.
